@@ -32,7 +32,7 @@ T = 'chainables.tree'
 
 
 def run(ctx: Ctx):
-  for r in (r1, r2, r3, r4, r5):
+  for r in (r1, r2, r3, r4, r5, r6):
     ctx.guard(r)
 
 
@@ -350,10 +350,58 @@ def r5(ctx: Ctx):
   ctx.floor(rule, 2, n)
 
 
+def r6(ctx: Ctx):
+  rule = 'R-C18-6'
+  ctx.rule(rule, 'a multi-key set writes EVERY (key, value) pair: the loop that'
+           ' zips keys with values in TreeMapView.set has no break/return and'
+           ' on every path through its body the pair is either written'
+           ' (_set_by_path with this key and value) or skipped by `continue`'
+           ' — a `break` on a placeholder key silently drops the pairs after it')
+  fi = ctx.repo.func(T, 'TreeMapView.set')
+  loops = [x for x in ast.walk(fi.node) if isinstance(x, ast.For) and isinstance(x.iter, ast.Call)
+           and unparse(x.iter.func) == 'zip' and isinstance(x.target, ast.Tuple) and len(x.target.elts) == 2]
+  if not loops:
+    raise AnalysisError(f'{rule}: the key/value zip loop was not found in TreeMapView.set')
+  n = 0
+  for lp in loops:
+    n += 1
+    kv, vv = (unparse(e) for e in lp.target.elts)
+    strict = any(k.arg == 'strict' and isinstance(k.value, ast.Constant) and k.value.value is True
+                 for k in lp.iter.keywords)
+    exits = [x for b in lp.body for x in ast.walk(b) if isinstance(x, (ast.Break, ast.Return))]
+    # inner loops own their breaks
+    inner = {id(y) for b in lp.body for z in ast.walk(b) if isinstance(z, (ast.For, ast.While))
+             for y in ast.walk(z) if isinstance(y, ast.Break)}
+    exits = [x for x in exits if id(x) not in inner]
+    writes = [c for b in lp.body for c in ast.walk(b) if isinstance(c, ast.Call) and isinstance(
+        c.func, ast.Attribute) and c.func.attr == '_set_by_path' and len(c.args) >= 3
+              and unparse(c.args[1]) == kv and unparse(c.args[2]) == vv]
+    if exits:
+      ctx.fail(rule, fi, f'TreeMapView.set: for {kv}, {vv} in zip(keys, values): every pair written',
+               f'the multi-key loop can leave early (`{unparse(exits[0])}`): the pairs'
+               ' after that key are silently not written, so reading one of'
+               ' those paths after the copying set returns the old value',
+               node=exits[0])
+    elif not writes or not strict:
+      ctx.fail(rule, fi, f'TreeMapView.set: for {kv}, {vv} in zip(keys, values, strict=True): _set_by_path',
+               'the multi-key loop does not write each zipped pair through'
+               ' _set_by_path (or the zip is not strict)', node=lp)
+    else:
+      ctx.ok(rule, fi, f'every ({kv}, {vv}) pair is written; no early exit', lp)
+  ctx.floor(rule, 1, n)
+
+
 from mlmverif.selfcheck import B, OK  # noqa: E402
 
 _F = 'chainables/tree.py'
 VARIANTS = [
+    B('multi-key-set-breaks-on-skip', _F,
+      '          for key, value in zip(keys, values, strict=True):\n            data = self._set_by_path(data, key, value, in_place)',
+      '          for key, value in zip(keys, values, strict=True):\n            if _is_key(key, _SKIP):\n              break\n            data = self._set_by_path(data, key, value, in_place)',
+      'R-C18-6'),
+    OK('multi-key-set-continues-on-skip', _F,
+       '          for key, value in zip(keys, values, strict=True):\n            data = self._set_by_path(data, key, value, in_place)',
+       '          for key, value in zip(keys, values, strict=True):\n            if _is_key(key, _SKIP):\n              continue\n            data = self._set_by_path(data, key, value, in_place)'),
     B('key-at-splices-tuples', _F,
       '  def at(self, key: BaseKey):\n    return Key(self + (key,))',
       '  def at(self, key: BaseKey):\n    if isinstance(key, tuple):\n      return Key(self + key)\n    return Key(self + (key,))',
